@@ -141,6 +141,8 @@ def query_sets(cf, cols=2):
     if cf:
         out.append(("none", None))
     out += [("m1", rows[:1]), ("m2", rows[:2]), ("m3", rows[:3])]
+    if cf:
+        out.append(("m2w3", [[0, 0, 0], [1, 1, 1]]))        # context-free bandits take contexts of any width
     return out
 
 
